@@ -137,6 +137,7 @@ func Main(prop string) {
 		layout(run, variants)
 		keywordCase(run)
 		compoundLayout(run)
+		keywordNeighbours(run)
 	}
 	if prop == "C05" {
 		parserErrorLocations(run)
@@ -291,6 +292,45 @@ func compoundLayout(run *core.Run) {
 				if err != nil || strings.Join(words, " ") != strings.Join(refWords, " ") {
 					run.Violate(core.Violation{Sig: "layout-changes-tokens|compound-keyword|" + name, Clause: "changing only the whitespace or comments between elements never changes the sequence of kinds and values",
 						Case: map[string]any{"compound_keyword": c, "separator": name, "text": text}, Observe: fmt.Sprint(words, err), Expect: refWords})
+				}
+			}
+		}
+	}
+}
+
+// keywordNeighbours: the word lexemes of LexLayout.tla concretised to every keyword spelling, next to an element of
+// every other kind, with every separator - among them comments whose own text ends in a character that means
+// something outside a comment (a full stop, a quote, a parenthesis).  The stream with one blank is the reference.
+func keywordNeighbours(run *core.Run) {
+	others := []string{".", "(", ")", ",", ";", "=", "*", "::", "x", "t.c", "1", "'s'", "\"q\""}
+	seps := map[string]string{"tab": "\t", "newline": "\n", "crlf": "\r\n", "newline-indent": "\n    ",
+		"line-comment": " -- c\n", "line-comment-ending-in-dot": " -- the c.\n  ", "line-comment-ending-in-quote": " -- it's\n", "line-comment-ending-in-paren": " -- f(\n",
+		"block-comment": "/* c */", "block-comment-tight-after-dot": "/*.*/", "block-comment-ending-in-dot": " /* c. */ ", "empty-block-comment": "/**/"}
+	tok := func(s string) string {
+		tk, _ := tokenizer.New()
+		ts, err := tk.Tokenize([]byte(s))
+		if err != nil {
+			return "ERR:" + err.Error()
+		}
+		return ops.TokString(ts, false)
+	}
+	for _, kw := range lexconc.KeywordSpellings {
+		for _, o := range others {
+			for _, pair := range [][2]string{{o, kw}, {kw, o}} {
+				ref := tok(pair[0] + " " + pair[1])
+				for name, sep := range seps {
+					text := pair[0] + sep + pair[1]
+					got := tok(text)
+					run.Eval(1)
+					run.Nontrivial("kwn" + text)
+					if got != ref {
+						where := "before"
+						if pair[0] == kw {
+							where = "after"
+						}
+						run.Violate(core.Violation{Sig: "layout-changes-tokens|keyword-neighbour|" + name, Clause: "changing only the whitespace or comments between elements never changes the sequence of kinds and values",
+							Case: map[string]any{"keyword": kw, "neighbour": o, "neighbour_is": where, "separator": name, "text": text}, Observe: got, Expect: ref})
+					}
 				}
 			}
 		}
